@@ -1074,10 +1074,10 @@ func min_max(args py.Tuple, kwargs py.StringDict, name string) (py.Object, error
 	var cmp func(a py.Object, b py.Object) (py.Object, error)
 	if name == "min" {
 		format = "|$OO:min"
-		cmp = py.Le
+		cmp = py.Lt // the first of equal items is kept
 	} else if name == "max" {
 		format = "|$OO:max"
-		cmp = py.Ge
+		cmp = py.Gt
 	}
 	var defaultValue py.Object
 	var keyFunc py.Object
@@ -1104,17 +1104,6 @@ func min_max(args py.Tuple, kwargs py.StringDict, name string) (py.Object, error
 		kf, ok = keyFunc.(*py.Function)
 		if !ok {
 			return nil, py.ExceptionNewf(py.TypeError, "'%s' object is not callable", keyFunc.Type())
-		}
-	}
-	if defaultValue != nil {
-		maxItem = defaultValue
-		if keyFunc != nil {
-			maxVal, err = py.Call(kf, py.Tuple{defaultValue}, nil)
-			if err != nil {
-				return nil, err
-			}
-		} else {
-			maxVal = defaultValue
 		}
 	}
 	iter, err := py.Iter(values)
@@ -1163,6 +1152,10 @@ func min_max(args py.Tuple, kwargs py.StringDict, name string) (py.Object, error
 	}
 
 	if maxItem == nil {
+		// the default is only for an empty iterable
+		if defaultValue != nil {
+			return defaultValue, nil
+		}
 		return nil, py.ExceptionNewf(py.ValueError, "%s() arg is an empty sequence", name)
 	}
 
